@@ -177,9 +177,9 @@ def runtime_pairing(ctx):
     n = 0
     for q, fn in list(db.functions_in("runtime")) + list(db.functions_in("template")) + list(db.functions_in("exceptions")):
         cls = q.rsplit(".", 1)[0]
-        if cls in rt.STACKS:
+        if cls in rt.STACKS and (fn.name in acq or fn.name in rel or fn.name.startswith("__")):
             continue  # the primitives themselves
-        a_sites = [c for c in calls_any(fn) if isinstance(c.func, ast.Attribute) and c.func.attr in acq and not dotted(c.func.value) == "self"]
+        a_sites = [c for c in calls_any(fn) if isinstance(c.func, ast.Attribute) and c.func.attr in acq and (cls in rt.STACKS or not dotted(c.func.value) == "self")]
         if not a_sites:
             continue
         g = cfgmod.function_cfg(fn)
